@@ -3,7 +3,7 @@
 # Confirms independently: patch applies, both suites green with patch, demo fails with patch and
 # passes without.  Writes <dir>/confirm.json.
 set -u
-D="$1"; ID="$2"; WT=/tmp/mutv
+D="$1"; ID="$2"; WT="${MUTV_WT:-/tmp/mutv}"
 export CARGO_NET_OFFLINE=true
 if [ ! -d "$WT" ]; then git -C /repo worktree add --detach "$WT" HEAD >/dev/null 2>&1 || exit 2; fi
 cd "$WT" || exit 2
